@@ -798,7 +798,8 @@ class C16(Check):
         first_texts = [top.to_udf(indent=None), top.to_udx(indent=2)]
         first_parse = [guarded(lambda x=x: obs(D.from_string(x))) for x in first_texts]
         first_dict = top.to_dict() if shape else None
-        first_fd = guarded(lambda: obs(D.from_dict(copy.deepcopy(first_dict)))) if shape else None
+        snapshot = copy.deepcopy(first_dict)
+        first_fd = guarded(lambda: obs(D.from_dict(first_dict))) if shape else None
         self._oracle_tree_battery(t, top, shape, erased, fail)
         # a DIFFERENT derivation in between: the same tree with the letter case of every name swapped;
         # it must itself round-trip exactly …
@@ -814,9 +815,11 @@ class C16(Check):
         if shape:
             if top.to_dict() != first_dict and not _dict_eq(top.to_dict(), first_dict):
                 fail("to_dict changed after other calls", repr(first_dict))
-            if guarded(lambda: obs(D.from_dict(copy.deepcopy(first_dict)))) != first_fd:
+            if guarded(lambda: obs(D.from_dict(first_dict))) != first_fd:
                 fail("from_dict is not a function of its dictionary (result changed after other calls)",
                      repr(first_dict))
+            if not _dict_eq(first_dict, snapshot):
+                fail("from_dict changed the dictionary it was given", repr(snapshot))
 
     def _oracle_tree_battery(self, t, top, shape, erased, fail):
         for udx in (False, True):
